@@ -54,7 +54,7 @@ Definition act_obs (o : obs) : Prop :=
 Definition posted_rec (t : Q) (o : obs) : Prop :=
   match o with
   | OHandler _ targ _ _ m => m = None /\ targ <= t
-  | OTap tt _ n _ => (exists k, n = NPost k) /\ tt <= t
+  | OTap t1 _ n _ => (exists k, n = NPost k) /\ t1 <= t
   | _ => True
   end.
 
@@ -105,19 +105,15 @@ Qed.
 Lemma do_action_spec : forall p t e a s,
   frame s (do_action p t e a s) /\ ext act_obs s (do_action p t e a s).
 Proof.
-  intros p t e a s. destruct a; simpl.
-  - unfold post. destruct (Qltb _ _); simpl; (split; [repeat split | apply (ext_emit act_obs); exact I]).
-  - unfold post. destruct (Qltb _ _); simpl; (split; [repeat split | apply (ext_emit act_obs); exact I]).
-  - unfold post. destruct (Qltb _ _); simpl; (split; [repeat split | apply (ext_emit act_obs); exact I]).
-  - destruct (ids s); [split; [apply frame_refl | apply ext_refl]|].
-    destruct (find_live _ _); (split; [repeat split | apply (ext_emit act_obs); exact I]).
-  - destruct (ids s); [split; [apply frame_refl | apply ext_refl]|].
-    split; [repeat split | apply (ext_emit act_obs); exact I].
-  - split; [repeat split | apply ext_same_out; reflexivity].
-  - split; [repeat split | apply ext_same_out; reflexivity].
-  - split; [repeat split | apply ext_same_out; reflexivity].
-  - split; [repeat split | apply ext_same_out; reflexivity].
-  - split; [repeat split | apply (ext_emit act_obs); exact I].
+  intros p t e a s.
+  assert (E1 : forall (o : obs) (s1 s2 : st), act_obs o -> out s2 = o :: out s1 -> ext act_obs s1 s2).
+  { intros o s1 s2 Ho E. exists [o]; split; [exact E | repeat constructor; exact Ho]. }
+  assert (E0 : forall (s1 s2 : st), out s2 = out s1 -> ext act_obs s1 s2) by (intros; apply ext_same_out; assumption).
+  (* one script for every constructor, so that new kinds of posting action need no new case *)
+  destruct a; unfold do_action, post;
+    try (destruct (ids s); [split; [apply frame_refl | apply ext_refl]|]);
+    try destruct (Qltb _ _); try destruct (find_live _ _);
+    (split; [repeat split | first [apply E0; reflexivity | eapply E1; [|reflexivity]; exact I]]).
 Qed.
 
 Lemma run_actions_spec : forall p t e acts s,
@@ -177,9 +173,9 @@ Qed.
 Lemma run_pending_spec : forall f t n s,
   oracle_same s (snd (run_pending tb f t n s)) /\ ext (posted_rec t) s (snd (run_pending tb f t n s)).
 Proof.
-  induction f as [|f IH]; intros t n s; simpl.
-  - split; [repeat split | apply ext_same_out; reflexivity].
-  - destruct (head (queue (discard s))) as [h|]; [|split; [repeat split | apply ext_same_out; reflexivity]].
+  induction f as [|f IH]; intros t n s.
+  - simpl. split; [repeat split | apply ext_same_out; reflexivity].
+  - cbn [run_pending]. destruct (head (queue (discard s))) as [h|]; [|split; [repeat split | apply ext_same_out; reflexivity]].
     destruct (Qle_bool (e_time h) t) eqn:Hle; [|split; [repeat split | apply ext_same_out; reflexivity]].
     apply Qle_bool_iff in Hle.
     set (s1 := set_clock _ _).
@@ -208,5 +204,176 @@ Proof.
   - apply (frame_trans _ s1); [repeat split|]. destruct F as (a1 & a2 & a3 & a4 & a5). repeat split; assumption.
   - exists l; split; [exact A|]. simpl. rewrite E. reflexivity.
 Qed.
+
+(* ------------------------------------------------------------------ the oracle *)
+(* consuming nr uniform variates, nl logarithms and nd ranks; an exhausted stream yields the
+   default and sets [stuck] *)
+Definition advance (nr nl nd : nat) (s : st) : st :=
+  {| clock := clock s; nextid := nextid s; queue := queue s; loci := loci s; world := world s; ids := ids s; out := out s;
+     rands := skipn nr (rands s); lns := skipn nl (lns s); draws := skipn nd (draws s);
+     stuck := stuck s || (length (rands s) <? nr)%nat || (length (lns s) <? nl)%nat || (length (draws s) <? nd)%nat |}.
+
+Lemma next_rand_adv : forall s, next_rand s = (hd 0 (rands s), advance 1 0 0 s).
+Proof.
+  intros [c ni q lc w i o rs ls ds sk]. unfold next_rand, advance, set_stuck, set_oracle. simpl.
+  destruct rs as [|r rs]; simpl; destruct sk; reflexivity.
+Qed.
+
+Lemma next_ln_adv : forall s, next_ln s = (hd 0 (lns s), advance 0 1 0 s).
+Proof.
+  intros [c ni q lc w i o rs ls ds sk]. unfold next_ln, advance, set_stuck, set_oracle. simpl.
+  destruct ls as [|r ls]; simpl; destruct sk; reflexivity.
+Qed.
+
+Lemma next_draw_adv : forall s, next_draw s = (hd 0%nat (draws s), advance 0 0 1 s).
+Proof.
+  intros [c ni q lc w i o rs ls ds sk]. unfold next_draw, advance, set_stuck, set_oracle. simpl.
+  destruct ds as [|r ds]; simpl; destruct sk; reflexivity.
+Qed.
+
+Lemma ltb_skipn_add : forall (n a b : nat), ((n <? a) || (n - a <? b))%nat = (n <? a + b)%nat.
+Proof.
+  intros n a b. destruct (Nat.ltb_spec n a), (Nat.ltb_spec (n - a) b), (Nat.ltb_spec n (a + b)); simpl; try reflexivity; lia.
+Qed.
+
+Lemma skipn_add : forall A (a b : nat) (l : list A), skipn b (skipn a l) = skipn (a + b) l.
+Proof.
+  intros A a b. induction a as [|a IH]; intros l; [reflexivity|].
+  destruct l as [|x l]; [simpl; apply skipn_nil | simpl; apply IH].
+Qed.
+
+Lemma advance_advance : forall a b c a' b' c' s,
+  advance a' b' c' (advance a b c s) = advance (a + a') (b + b') (c + c') s.
+Proof.
+  intros a b c a' b' c' [cl ni q lc w i o rs ls ds sk]. unfold advance; simpl.
+  rewrite !skipn_add, !skipn_length.
+  f_equal.
+  rewrite <- (ltb_skipn_add (length rs) a a'), <- (ltb_skipn_add (length ls) b b'), <- (ltb_skipn_add (length ds) c c').
+  destruct sk; [reflexivity|]. simpl.
+  destruct (length rs <? a)%nat, (length ls <? b)%nat, (length ds <? c)%nat,
+           (length rs - a <? a')%nat, (length ls - b <? b')%nat, (length ds - c <? c')%nat; reflexivity.
+Qed.
+
+Lemma advance_0 : forall s, advance 0 0 0 s = s.
+Proof. intros [cl ni q lc w i o rs ls ds sk]. unfold advance; simpl. rewrite !orb_false_r. reflexivity. Qed.
+
+(* ------------------------------------------------------------------ the tranche loop *)
+(* the event named by a tap is a registered event with positive probability *)
+Definition fired_ok (pi : nat) (n : ename) : Prop :=
+  exists j ev, n = NEv pi j /\ In (pi, j, ev) (all_events tb) /\ 0 < ev_p ev.
+
+(* records of the tranche of timestep t *)
+Definition tranche_rec (t : Q) (o : obs) : Prop :=
+  match o with
+  | OHandler _ targ clk _ m => m = Some true /\ targ = t /\ clk = t
+  | OTap t1 pi n _ => t1 = t /\ fired_ok pi n
+  | _ => True
+  end.
+
+Definition is_fired (o : obs) : bool := match o with OHandler _ _ _ _ (Some _) => true | _ => false end.
+Definition nfired (l : list obs) : nat := length (filter is_fired l).
+
+Lemma nfired_act : forall l, Forall act_obs l -> nfired l = 0%nat.
+Proof.
+  unfold nfired. induction 1 as [|o l Ho _ IH]; [reflexivity|].
+  simpl. destruct o; simpl in *; try exact IH; contradiction.
+Qed.
+
+Lemma nfired_app : forall a b, nfired (a ++ b) = (nfired a + nfired b)%nat.
+Proof. intros; unfold nfired; rewrite filter_app, app_length; reflexivity. Qed.
+
+Definition sel_ok (xe : (nat * nat * event) * elem) : Prop :=
+  In (fst xe) (all_events tb) /\ 0 < ev_p (snd (fst xe)).
+
+(* the skip of synchronousdynamics.py:114, as equations on the loop body *)
+Lemma fire_tranche_skip : forall t x e evs nev s,
+  mem e (locus s (ev_locus (snd x))) = false ->
+  fire_tranche tb t ((x, e) :: evs) nev s = fire_tranche tb t evs nev s.
+Proof. intros t x e evs nev s H. cbn [fire_tranche]. rewrite H. reflexivity. Qed.
+
+Lemma fire_tranche_fire : forall t x e evs nev s,
+  mem e (locus s (ev_locus (snd x))) = true ->
+  fire_tranche tb t ((x, e) :: evs) nev s = fire_tranche tb t evs (S nev) (fire_event tb x t e s).
+Proof. intros t x e evs nev s H. cbn [fire_tranche]. rewrite H. reflexivity. Qed.
+
+Lemma fire_tranche_spec : forall t evs nev s, clock s = t -> Forall sel_ok evs ->
+  let r := fire_tranche tb t evs nev s in
+  frame s (snd r) /\
+  exists l, out (snd r) = l ++ out s /\ Forall (tranche_rec t) l /\ fst r = (nev + nfired l)%nat.
+Proof.
+  intros t evs. induction evs as [|[x e] evs IH]; intros nev s Hc Hs.
+  - simpl. split; [apply frame_refl|]. exists []. split; [reflexivity|]. split; [apply Forall_nil | unfold nfired; simpl; lia].
+  - inversion Hs as [|? ? [Hin Hp] Hs']; subst. cbn [fire_tranche].
+    destruct (mem e (locus s (ev_locus (snd x)))) eqn:Hm; [|exact (IH nev s eq_refl Hs')].
+    destruct x as [[pi j] ev]. simpl fst in *; simpl snd in *.
+    destruct (fire_event_spec pi j ev (clock s) e s) as [F [l [A E]]].
+    set (s' := fire_event tb (pi, j, ev) (clock s) e s) in *.
+    assert (Hc' : clock s' = clock s) by (destruct F as [F _]; exact F).
+    specialize (IH (S nev) s' Hc'). destruct (IH Hs') as [F' [l' [E' [R' N']]]].
+    split; [exact (frame_trans _ _ _ F F')|].
+    exists (l' ++ OTap (clock s) pi (NEv pi j) e :: l ++ [OHandler (ev_prog ev) (clock s) (clock s) e (Some true)]).
+    split; [|split].
+    + etransitivity; [exact E'|]. rewrite E, Hm. rewrite <- !app_assoc. simpl. rewrite <- app_assoc. reflexivity.
+    + apply Forall_app; split; [exact R'|]. constructor.
+      * simpl. split; [reflexivity|]. exists j, ev. repeat split; assumption.
+      * apply Forall_app; split.
+        -- eapply Forall_impl; [|exact A]. intros o; destruct o; simpl; tauto.
+        -- repeat constructor.
+    + etransitivity; [exact N'|]. rewrite !nfired_app. change (OTap (clock s) pi (NEv pi j) e :: l ++ [OHandler (ev_prog ev) (clock s) (clock s) e (Some true)])
+        with ([OTap (clock s) pi (NEv pi j) e] ++ l ++ [OHandler (ev_prog ev) (clock s) (clock s) e (Some true)]).
+      rewrite !nfired_app, (nfired_act l A). unfold nfired; simpl. lia.
+Qed.
+
+(* ------------------------------------------------------------------ the inverse-CDF scan *)
+Fixpoint qsum {A} (f : A -> Q) (l : list A) : Q :=
+  match l with [] => 0 | x :: l' => f x + qsum f l' end.
+
+(* [select] returns the first x whose interval [xs + sum before, xs + sum before + f x) contains xc *)
+Lemma select_spec : forall A (f : A -> Q) xc l xs cur, xs <= xc -> xc < xs + qsum f l ->
+  exists l1 x l2, l = l1 ++ x :: l2 /\ select f xc xs cur l = x /\
+    xs + qsum f l1 <= xc /\ xc < xs + qsum f l1 + f x /\
+    (forall l1' y l1'', l1 = l1' ++ y :: l1'' -> xs + qsum f l1' + f y <= xc).
+Proof.
+  intros A f xc. induction l as [|x l IH]; intros xs cur Hlo Hhi.
+  - cbn [qsum] in Hhi. rewrite Qplus_0_r in Hhi. exfalso; exact (Qlt_not_le _ _ Hhi Hlo).
+  - cbn [select]. destruct (Qltb xc (xs + f x)) eqn:Hc.
+    + apply Qltb_lt in Hc. exists [], x, l. cbn [qsum app]. rewrite Qplus_0_r. repeat split; try assumption.
+      intros l1' y l1'' Hnil. destruct l1'; discriminate.
+    + apply Qltb_ge in Hc. cbn [qsum] in Hhi.
+      destruct (IH (Qred (xs + f x)) x) as (l1 & y & l2 & El & Es & H1 & H2 & H3).
+      * rewrite Qred_correct; exact Hc.
+      * rewrite Qred_correct, <- Qplus_assoc. exact Hhi.
+      * rewrite Qred_correct in H1, H2.
+        exists (x :: l1), y, l2. cbn [qsum app]. split; [rewrite El; reflexivity|].
+        split; [exact Es|]. split; [|split].
+        -- rewrite Qplus_assoc; exact H1.
+        -- rewrite Qplus_assoc; exact H2.
+        -- intros l1' z l1'' E. destruct l1' as [|x' l1']; cbn [app] in E; inversion E; subst.
+           ++ cbn [qsum]. rewrite Qplus_0_r. exact Hc.
+           ++ cbn [qsum]. rewrite Qplus_assoc. specialize (H3 l1' z l1'' eq_refl).
+              rewrite Qred_correct in H3. exact H3.
+Qed.
+
+Lemma select_pos : forall A (f : A -> Q) xc l cur, 0 <= xc -> xc < qsum f l ->
+  In (select f xc 0 cur l) l /\ 0 < f (select f xc 0 cur l).
+Proof.
+  intros A f xc l cur Hlo Hhi.
+  destruct (select_spec A f xc l 0 cur Hlo) as (l1 & x & l2 & El & Es & H1 & H2 & _).
+  - rewrite Qplus_0_l; exact Hhi.
+  - rewrite Es. split; [rewrite El; apply in_or_app; right; left; reflexivity|].
+    apply (Qplus_lt_r _ _ (0 + qsum f l1)). rewrite Qplus_0_r.
+    exact (Qle_lt_trans _ _ _ H1 H2).
+Qed.
+
+Lemma fold_qsum : forall A (f : A -> Q) l a, fold_left (fun a x => Qred (a + f x)) l a == a + qsum f l.
+Proof.
+  intros A f. induction l as [|x l IH]; intros a.
+  - change (a == a + 0). rewrite Qplus_0_r; reflexivity.
+  - change (fold_left (fun a x => Qred (a + f x)) l (Qred (a + f x)) == a + (f x + qsum f l)).
+    rewrite IH, Qred_correct, Qplus_assoc. reflexivity.
+Qed.
+
+Lemma sum_rates_qsum : forall (s : st) trs, sum_rates s trs == qsum (rate s) trs.
+Proof. intros s trs. unfold sum_rates. rewrite fold_qsum, Qplus_0_l. reflexivity. Qed.
 
 End KM.
